@@ -623,6 +623,9 @@ func init() {
 		uid := T("INDI0", "", "", T("_UID", "notauuid", ""))
 		c07laws(c, uid, uid.Clone(), "copy", "eq")
 
+		// 0b. fixed boundary corpus (sizes, histories, aliasing, bytes): c07g.go
+		c07boundary(c)
+
 		// 1. random trees: copy, permutation, independent pair, edits
 		n := c.N(6000, 120000)
 		for i := 0; i < n; i++ {
